@@ -679,19 +679,7 @@ fn traced_stage(
             map.extend(more);
         }
     }
-    let mut wildcards: Vec<_> = ctx
-        .anchor
-        .column_decls
-        .iter()
-        .filter(|(_, d)| {
-            matches!(
-                d,
-                super::context::ColumnDecl::RelationColumn(_, _, rq::RelationColumn::Wildcard)
-            )
-        })
-        .map(|(c, _)| c.get())
-        .collect();
-    wildcards.sort();
+    let wildcards = crate::sql::verif_hooks::wildcard_cids(&ctx.anchor);
     crate::sql::verif_hooks::trace_event(serde_json::json!({
         "event": "preprocess_stage",
         "stage": stage,
